@@ -231,7 +231,8 @@ def interleave_job(first, then, size_first, size_then, kw_then):
     ev_a, ev_b = E.by_task(first), E.by_task(then)
 
     def build(ctx):
-        a = ev_a.build(ctx, size_first)
+        # the first task only has to run (its result is not compared): concrete arguments where a set is listed
+        a = dict(args=FIRST_ARGS[first](), kw={}) if first in FIRST_ARGS else ev_a.build(ctx, size_first)
         b = ev_b.build(ctx, size_then)
         kw = {}
         for k, spec in kw_then.items():
@@ -242,11 +243,14 @@ def interleave_job(first, then, size_first, size_then, kw_then):
         return dict(a=a, b=b, kw=kw)
 
     def body(A, inp):
+        a_inp = inp['a']
+        if A.sym and first in FIRST_ARGS:
+            a_inp = dict(args=tuple(S._wrap(x) if isinstance(x, np.ndarray) else x for x in a_inp['args']), kw={})
         st = _module_state()
         try:
             s1, r1 = A.call(lambda: ev_b.call(inp['b'], kw=inp['kw']))
             _restore_module_state(st)
-            s0, _ = A.call(lambda: ev_a.call(inp['a']))
+            s0, _ = A.call(lambda: ev_a.call(a_inp))
             s2, r2 = A.call(lambda: ev_b.call(inp['b'], kw=inp['kw']))
         finally:
             _restore_module_state(st)
@@ -257,6 +261,14 @@ def interleave_job(first, then, size_first, size_then, kw_then):
     return Job('C15', 'interleave[%s.evaluate then %s.evaluate(%s)]' % (first, then, ','.join(sorted(kw_then))), build, body,
                funcs=ev_a.funcs + ev_b.funcs + ['util.filter_kwargs'], exact_floats=False, timeout_s=900, fresh_empty=True, exc_policy='body')
 
+
+FIRST_ARGS = {
+    'beat': lambda: (np.array([6.0, 7.0, 8.0]), np.array([6.1, 7.0, 8.5])),
+    'onset': lambda: (np.array([1.0, 2.0]), np.array([1.01, 2.5])),
+    'segment': lambda: (np.array([[0.0, 1.0], [1.0, 2.0]]), ['a', 'b'], np.array([[0.0, 1.5], [1.5, 2.0]]), ['a', 'c']),
+    'tempo': lambda: (np.array([60.0, 120.0]), 0.5, np.array([61.0, 180.0])),
+    'chord': lambda: (np.array([[0.0, 1.0], [1.0, 2.0]]), ['C:maj', 'G:7'], np.array([[0.0, 2.0]]), ['C:maj']),
+}
 
 INTERLEAVE = [
     ('beat', 'onset', (1, 1), (1, 1), {'window': 'posreal'}),
